@@ -21,6 +21,18 @@ CLAIMED = {
  "C05": ("model_checking", "explicit-state BFS over fill/delete/refill cycles on nearly-full volumes; FAT scan vs reachable set, capacity arithmetic",
          "All histories of create/fill/write/close/delete/mkdir up to the bound on volumes with 0..3 free clusters (slack and exact FATs): accepted bytes must equal free clusters x cluster size, the error must be an out-of-space error, everything accepted reads back, and at quiescent points clusters in use = union of live chains (differentially per operation).",
          MC_NOTE, "DESIGN.md section 5 C05"),
+ "C06": ("model_checking", "exhaustive enumeration of directory contents (slot sequences over a slot alphabet at 8 placements) plus explicit-state BFS over create/delete/mkdir histories; listing, lookup and open_dir compared with an independent reader",
+         "Every slot sequence up to the bound over {file, dir, deleted, label, LFN run, LFN slot spelling an 8.3 name, end marker} at the start of a directory, across a cluster boundary of a fragmented directory, in FAT16 roots of 16/32/512 entries and FAT32 roots at cluster 2/5 is listed by the real iterate_dir and every name of a universe is looked up / opened; plus the same probes at every state of the mutation histories.",
+         MC_NOTE, "DESIGN.md section 5 C06"),
+ "C07": ("model_checking", "explicit-state BFS over create/delete/mkdir/open/close histories with the full mode x target x name matrix applied at every state (one extra replay per cell)",
+         "At every reachable state within the depth bound every cell of {6 modes} x {missing, file, read-only file, directory, open file, second directory handle} x {valid and invalid names} plus write-on-read-only, delete and open_dir is applied to the real code; the outcome class must be the documented one and a refused call must leave the medium bit-identical.",
+         MC_NOTE, "DESIGN.md section 5 C07"),
+ "C09": ("fault_enumeration", "crash-prefix enumeration: every prefix of the block-write log of every transition of an explicit-state BFS, judged by a fresh mount and an independent reader",
+         "For every transition explored (all mutation histories up to the depth bound) and every prefix of its write log, the crash image must still show every file flushed before the transition (and not modified by it) with at least the flushed length and exactly the flushed bytes, through refat and through a fresh mount of the crate.",
+         MC_NOTE, "DESIGN.md section 5 C09"),
+ "C10": ("fault_enumeration", "crash-prefix enumeration over every mutating transition of an explicit-state BFS; independent fsck of every crash image",
+         "For every prefix of the write log of every explored transition (create, extend, flush, close, truncate, delete, mkdir, directory growth) on volumes whose free clusters hold stale directory-like contents, the crash image must mount and list, and refat must find no reference to a free/bad/out-of-range cluster, no shared cluster, no cycle, no exposed stale entries and no sub-directory without its own cluster.",
+         MC_NOTE, "DESIGN.md section 5 C10"),
  "C15": ("exploration", "exhaustive input enumeration: full product of valid layout parameters and single+pair boundary mutations, run through the real mount path",
          "Every layout in the stated product is formatted by an independent formatter and must be mounted, listed and read back exactly by the crate; every boundary value of every MBR/BPB/FSInfo field (singly and in pairs) and every constant-byte sector must make open_raw_volume return without panic under overflow checks.",
          "Trusted base: mkfs (independent formatter) and refat (its images are cross-checked by the self-test). Between grid points nothing is claimed.", "DESIGN.md section 5 C15"),
